@@ -8,10 +8,10 @@
 EXTENDS MC_FllSyntax, PyRepr
 Aliases == <<"fl", "", "*", "zz">>
 Rebuilds == ready => \A j \in 1..Len(Aliases) :
-               LET t == Tree(eng, Aliases[j], dec) IN Eval(t, Aliases[j], eng, dec) = Canon(eng, dec) /\ StringsAgree(t, eng, dec)
+               LET t == Tree(eng, Aliases[j], dec) IN Eval(t, Aliases[j], eng, dec) = CanonW(eng, dec, FALSE) /\ StringsAgree(t, eng, dec)
 PickAlias == ((Len(Text) + idx) % 3) + 2
 EmitTrees == (Emit /\ ready) =>
-   PrintT(ToJson([engine |-> eng, dec |-> dec, canon |-> Canon(eng, dec),
+   PrintT(ToJson([engine |-> eng, dec |-> dec, canon |-> CanonW(eng, dec, FALSE),
                   trees |-> << [alias |-> "fl", imp |-> ImportStatement("fl"), tree |-> Tree(eng, "fl", dec)],
                                [alias |-> Aliases[PickAlias], imp |-> ImportStatement(Aliases[PickAlias]), tree |-> Tree(eng, Aliases[PickAlias], dec)] >>]))
 =============================================================================
